@@ -1,7 +1,9 @@
 (* C03 at the history level — idle sessions expire for good; active ones are
    kept, whatever happens to the cache short of losing it.
    Statements only; proofs are in Proofs/LiveHist.v … LiveHist7.v (built on
-   PC's StartLaws*, PD's RotateLaws*, PF's HistInv*/DeadLaws).
+   PC's StartLaws*, PD's RotateLaws*, PF's HistInv*/DeadLaws) and, for the
+   "served its own session" theorems of the audit round (C03H_live_own …),
+   Proofs/LiveHist9.v … LiveHist11.v.
 
    Vocabulary (unfolded by the *_meaning theorems below):
      reach c hs, after w hs   the world after running the history hs from the
@@ -22,11 +24,21 @@
                        replaces or deletes its session's ID (RegenerateID, LogIn,
                        Destroy) the session Start gave it is not k
      live_run, all_served   these requirements / "every request of the client
-                       returns a session" along a list of hops *)
+                       returns a session" along a list of hops
+     served_own cl w r  (audit finding 6) the request r of client cl in world w
+                       is served the client's OWN session: a session is
+                       returned, no deletion cookie is in the response, the
+                       session returned carries the data and user the client's
+                       ID resolved to before the step under that ID or the ID
+                       drawn for it in this step, and the ID the client ends on
+                       names the handler's session, still resolves to a session
+                       and was not deleted from the store in the step
+     all_own           served_own for every request of the client along a list
+                       of hops (implies all_served: C03H_own_implies_served) *)
 From Sessions Require Import Model.Base Model.Sess Model.Hist Proofs.SessDefs
   Proofs.HistInv Proofs.HistInv2 Proofs.HistInv3
   Proofs.LiveHist Proofs.LiveHist2 Proofs.LiveHist3 Proofs.LiveHist4 Proofs.LiveHist5 Proofs.LiveHist6
-  Proofs.LiveHist7.
+  Proofs.LiveHist7 Proofs.LiveHist9 Proofs.LiveHist10 Proofs.LiveHist11.
 From Sessions Require Proofs.StartLaws Proofs.StartLaws4 Proofs.IsoLaws.
 
 (* ------------------------------------------------ C03H_access_monotone *)
@@ -143,6 +155,101 @@ Theorem C03H_live_run :
   forall j c hs k tl w, owns j c k (fl j tl) w -> live_run j c tl w hs -> all_served c w hs.
 Proof. exact live_run_served. Qed.
 
+(* ----------------------------------------------------------- C03H_live_own *)
+
+(* Audit finding 6. "Returns a session" is also true of a request with
+   createIfNew whose session was destroyed for staleness and replaced by a
+   fresh one (Proofs/LiveHist11.v, Ex11.late_returns_a_session). The same
+   hypotheses as C03H_live give more: every request of the client is served
+   its own, non-expired session — served_own, unfolded in
+   C03H_served_own_meaning: no CkDelete among the response cookies; the session
+   Start returned has the data and the user of the session the client's ID
+   resolved to before the step, is no replaced-ID record, has access time now,
+   and its ID is the client's or the one drawn in this step; the client ends
+   on the ID of the handler's session, which resolves to a session afterwards
+   and of which the store saw no DeleteSession in the step. *)
+Theorem C03H_live_own :
+  forall c hs0 r0 hs,
+    Forall (calm (c_json c)) hs0 ->
+    rq_present r0 = PJar -> rq_plan r0 = [] -> rq_crash r0 = None -> rq_create r0 = true ->
+    (forall k, jar_of (w_jars (reach c hs0)) (rq_client r0) <> CKey k) ->
+    existsb is_destroy (rq_script r0) = false ->
+    live_run (c_json c) (rq_client r0) (now (w_st (reach c hs0))) (fst (step (reach c hs0) (HReq r0))) hs ->
+    all_own (rq_client r0) (reach c hs0) (HReq r0 :: hs).
+Proof. exact live_hist_created_own. Qed.
+
+Theorem C03H_live_from_own :
+  forall c hs0 cl k r hs,
+    Forall (calm (c_json c)) hs0 ->
+    jar_of (w_jars (reach c hs0)) cl = CKey k ->
+    L (w_st (reach c hs0)) k = Some r -> r_ref r = None ->
+    (forall d k', In (d, k') (pending (w_st (reach c hs0))) -> k' <> k) ->
+    live_run (c_json c) cl (r_access r) (reach c hs0) hs ->
+    all_own cl (reach c hs0) hs.
+Proof. exact live_hist_own. Qed.
+
+(* the induction, and its step for a request of the client *)
+Theorem C03H_live_run_own :
+  forall j c hs k tl w, owns j c k (fl j tl) w -> live_run j c tl w hs -> all_own c w hs.
+Proof. exact live_run_own. Qed.
+
+Theorem C03H_own_request :
+  forall j c k tl w r,
+    owns j c k (fl j tl) w ->
+    rq_client r = c -> rq_present r = PJar -> rq_plan r = [] -> rq_crash r = None ->
+    okreq j c tl w r ->
+    served_own c w r.
+Proof. exact owns_own_served. Qed.
+
+(* the request that creates the session: no deletion cookie, the new ID is not
+   deleted in the step *)
+Theorem C03H_own_created :
+  forall j c w r,
+    W j w -> rq_client r = c -> rq_present r = PJar -> rq_plan r = [] -> rq_crash r = None ->
+    (forall k, jar_of (w_jars w) c <> CKey k) -> rq_create r = true ->
+    existsb is_destroy (rq_script r) = false ->
+    served_own c w r.
+Proof. exact owns_create_served. Qed.
+
+(* object identity: when the client's ID is cached, Start (on the state the
+   request step prepares) returns the very object the cache holds under it —
+   also when it rotates the ID, which re-keys that object *)
+Theorem C03H_own_same_object :
+  forall j c k tl w r o0,
+    owns j c k (fl j tl) w ->
+    rq_client r = c -> rq_present r = PJar -> okreq j c tl w r ->
+    lookup (cache (w_st w)) k = Some o0 ->
+    exists s2 ck, start (req_s1 w r) (req_q w r) = (s2, Ok (Some o0), ck) /\ ~ In CkDelete ck.
+Proof. exact own_same_object. Qed.
+
+(* all_own says more than all_served *)
+Theorem C03H_own_implies_served : forall c hs w, all_own c w hs -> all_served c w hs.
+Proof. exact all_own_served. Qed.
+
+(* Why no deletion can hide in such a step, for ARBITRARY fault plans: Start
+   asks the store to delete only on its two refusing branches (which return an
+   error) and on its invalid/miss branches (which put the deletion cookie in the
+   response); so whenever it returns a session without a deletion cookie it
+   logged no DeleteSession. Handler operations other than Destroy never do; the
+   clean-up goroutines delete only IDs that were awaiting clean-up. *)
+Theorem C03H_start_no_delete :
+  forall s q s' o cks,
+    start s q = (s', Ok (Some o), cks) -> ~ In CkDelete cks ->
+    (exists es, evs s' = es ++ evs s /\ Forall nodel es) /\ (supply s <= supply s')%N.
+Proof. exact start_nds. Qed.
+
+Theorem C03H_sop_no_delete :
+  forall s o hc op, op <> SDestroy ->
+    ((exists es, evs (fst (fst (do_sop s o hc op))) = es ++ evs s /\ Forall nodel es) /\
+     (supply s <= supply (fst (fst (do_sop s o hc op))))%N) /\
+    (snd (do_sop s o hc op) = [] \/ exists n, (supply s <= n)%N /\ snd (do_sop s o hc op) = [CkLive (KGen n)]).
+Proof. exact do_sop_nds. Qed.
+
+Theorem C03H_cleanup_deletes_pending :
+  forall s, exists es, evs (fire_due s) = es ++ evs s /\ Forall (del_of (pending s)) es /\
+                      supply (fire_due s) = supply s.
+Proof. exact fire_due_dels. Qed.
+
 (* -------------------------------------------------------- C03H_dead_hist *)
 
 (* A request that finds the presented ID idle for SessionExpiry or longer (a
@@ -252,6 +359,40 @@ Theorem C03H_owns_meaning :
     c_json (conf (w_st w)) = j.
 Proof. exact owns_meaning. Qed.
 
+Theorem C03H_served_own_meaning :
+  forall c w r,
+    served_own c w r <->
+    let ob := snd (step w (HReq r)) in
+    ob_res ob = RSess /\
+    ~ In CkDelete (ob_cookies ob) /\
+    (forall k r0, jar_of (w_jars w) c = CKey k -> L (w_st w) k = Some r0 ->
+       r_ref r0 = None /\ StartLaws.stale (conf (w_st w)) r0 (now (w_st w)) = false /\
+       expired (conf (w_st w)) r0 (now (w_st w)) = false /\
+       exists id rc, ob_start ob = Some (id, rc) /\ (id = k \/ id = KGen (supply (w_st w))) /\
+         r_ref rc = None /\ r_data rc = r_data r0 /\ r_user rc = r_user r0 /\ r_access rc = now (w_st w)) /\
+    exists k' rf, ob_jar ob = CKey k' /\ ob_final ob = Some (k', rf) /\ r_ref rf = None /\
+      (forall b, ~ In (EvDelete k' b) (ob_evs ob)) /\
+      exists r', L (w_st (fst (step w (HReq r)))) k' = Some r' /\ r_ref r' = None.
+Proof. exact served_own_meaning. Qed.
+
+Theorem C03H_all_own_meaning :
+  forall c w h t,
+    all_own c w (h :: t) <->
+    match h with HReq r => is_own c h = true -> served_own c w r | _ => True end /\ all_own c (fst (step w h)) t.
+Proof. exact all_own_meaning. Qed.
+
+Theorem C03H_nodel_meaning : forall e, nodel e <-> match e with EvDelete _ _ => False | _ => True end.
+Proof. exact nodel_meaning. Qed.
+
+Theorem C03H_del_of_meaning :
+  forall l e, del_of l e <-> match e with EvDelete k _ => exists d, In (d, k) l | _ => True end.
+Proof. exact del_of_meaning. Qed.
+
+Theorem C03H_req_state_meaning :
+  forall w r, req_s1 w r = set_tb (set_plan (set_evs (w_st w) []) []) (rq_tb r) /\
+              req_q w r = mkReq (pres w r) (rq_create r) (rq_addr r) (rq_ua r).
+Proof. exact req_state_meaning. Qed.
+
 (* owns is reached from these facts (in a state satisfying W) *)
 Theorem C03H_owns_intro :
   forall j c k w r,
@@ -278,6 +419,17 @@ Print Assumptions C03H_live_from.
 Print Assumptions C03H_live_other_steps.
 Print Assumptions C03H_live_run.
 Print Assumptions C03H_dead_hist.
+Print Assumptions C03H_live_own.
+Print Assumptions C03H_live_from_own.
+Print Assumptions C03H_live_run_own.
+Print Assumptions C03H_own_request.
+Print Assumptions C03H_own_created.
+Print Assumptions C03H_own_same_object.
+Print Assumptions C03H_own_implies_served.
+Print Assumptions C03H_start_no_delete.
+Print Assumptions C03H_sop_no_delete.
+Print Assumptions C03H_cleanup_deletes_pending.
+Print Assumptions C03H_served_own_meaning.
 Print Assumptions C03H_owns_intro.
 (* non-vacuity: a worked history (one cached session, JSON store, two rotations,
    eviction, purge, clean-ups, a user-wide logout, a cache-size change) on which
@@ -290,3 +442,14 @@ Print Assumptions Ex.access_trace.
 Print Assumptions Ex.monotone_applies.
 Print Assumptions Ex.too_late.
 Print Assumptions Ex.dead_applies.
+(* non-vacuity of C03H_live_own (Proofs/LiveHist11.v, Module Ex11): the same
+   worked history; a history with grace 0 in which replaced IDs are deleted
+   inside the client's own steps; a late request with createIfNew that "returns
+   a session" but is not served its own *)
+Print Assumptions Ex11.own_all.
+Print Assumptions Ex11.own_run.
+Print Assumptions Ex11.same_object_applies.
+Print Assumptions Ex11.own_all_Z.
+Print Assumptions Ex11.own_run_Z.
+Print Assumptions Ex11.late_returns_a_session.
+Print Assumptions Ex11.late_not_own.
